@@ -237,7 +237,17 @@ def compare(eng, op, a, b):
     if op == 'NotEq':
         return eng.Not(eng.eq(a, b))
     if op in ('Is', 'IsNot'):
-        if a is None or b is None or isinstance(a, bool) or isinstance(b, bool):
+        if isinstance(a, bool) or isinstance(b, bool):
+            x, y = (a, b) if isinstance(b, bool) else (b, a)
+            if isinstance(x, bool):
+                r = x is y
+            elif isinstance(x, SV) and x.ty == TBool:
+                r = x.e == z3.BoolVal(y)
+            elif isinstance(x, SV) and isinstance(x.ty, TOpt) and x.ty.t == TBool:
+                r = eng.eq(x, y)
+            else:
+                r = False
+        elif a is None or b is None:
             r = eng.eq(a, b)
         elif isinstance(a, (Obj, Box, Closure, ClassV, ExcClass)) or isinstance(b, (Obj, Box, Closure, ClassV, ExcClass)):
             r = a is b
@@ -445,14 +455,21 @@ def getitem(eng, v, k):
             res = eng.ite(idx == j, v[j], res)
         return res
     if isinstance(v, dict):
+        conds = []
         for kk, vv in v.items():
             r = eng.eq(kk, k)
             if r is True:
                 return vv
             if r is not False:
-                raise EngineError('symbolic key into a concrete dict')
-        eng.maybe_raise(False, 'KeyError')
-        raise EngineError('missing key in spec')
+                conds.append((r, vv))
+        if not conds:
+            eng.maybe_raise(False, 'KeyError')
+            raise EngineError('missing key in spec')
+        eng.maybe_raise(eng.Or(*[c for c, _ in conds]), 'KeyError')
+        res = conds[-1][1]
+        for c, vv in reversed(conds[:-1]):
+            res = eng.ite(c, vv, res)
+        return res
     if isinstance(v, Obj):
         k_ = v.__dict__.get('klass')
         if k_ is not None and k_.lookup('__getitem__') is not None:
@@ -723,6 +740,15 @@ def b_reversed(eng, x):
 def b_len(eng, x):
     if isinstance(x, (tuple, list, str, dict)):
         return len(x)
+    if isinstance(x, CharSet):
+        # assumed contract: len(set(s)) == 0 iff s empty; == 1 iff s non-empty and all characters equal
+        e = x.s.e
+        c = eng.fresh(TInt, 'nchars')
+        i = z3.FreshInt('ci')
+        same = z3.ForAll([i], z3.Implies(z3.And(0 <= i, i < z3.Length(e)), z3.SubString(e, i, 1) == z3.SubString(e, 0, 1)))
+        eng.assume(z3.And(c >= 0, c <= z3.Length(e), (c == 0) == (z3.Length(e) == 0),
+                          (c == 1) == z3.And(z3.Length(e) > 0, same)))
+        return SV(TInt, c)
     if isinstance(x, IterV):
         return len(x.concrete) if x.concrete is not None else eng.numval(x.n)
     if isinstance(x, Box) and x.ty is None:
@@ -782,6 +808,8 @@ def b_isinstance(eng, v, t):
     for x in ts:
         if isinstance(x, PyType):
             names.add(x.name)
+        elif isinstance(x, Builtin) and getattr(x, 'pytype', None) is not None:
+            names.add(x.pytype.name)
         elif isinstance(x, ClassV):
             names.add(x.name)
         elif isinstance(x, ExcClass):
@@ -914,9 +942,18 @@ def iter_to_list(eng, it, ty=None):
     return Box(sq, r)
 
 
+class CharSet:
+    """set(s) of a symbolic string: only its size class (0, 1, >= 2) and membership are modelled."""
+
+    def __init__(self, s):
+        self.s = s
+
+
 def b_set(eng, x=None):
     if x is None:
         return Box(None, kind='set')
+    if isinstance(x, SV) and x.ty == TStr:
+        return CharSet(x)
     it = make_iter(eng, x)
     if it.concrete is not None:
         return new_set(eng, it.concrete)
@@ -1520,5 +1557,11 @@ def install(eng):
     # externals
     EXTERNAL_MODULES['logging'] = ModuleV('logging', dict(WARNING=30, ERROR=40, INFO=20, DEBUG=10, CRITICAL=50))
     EXTERNAL_MODULES['argparse'] = ModuleV('argparse', dict(ArgumentTypeError=ExcClass('ArgumentTypeError')))
+    def np_sign(e, x):
+        v = e.num(x)
+        if isinstance(v, (int, float)):
+            return (v > 0) - (v < 0)
+        return e.numval(z3.If(v > 0, 1, z3.If(v < 0, -1, 0)))
+    EXTERNAL_MODULES['numpy'] = ModuleV('numpy', dict(sign=Builtin(np_sign, 'numpy.sign')))
     EXTERNAL_MODULES['numbers'] = ModuleV('numbers', dict(Integral=PyType('Integral'), Number=PyType('Number'),
                                                           Real=PyType('Number')))
